@@ -30,10 +30,21 @@ pub enum MsgId {
     ResTop,
     WithRes,
     Borrowed,
+    /// `string` x `PathBuf` in every shape (and `bytes` x `Option<PathBuf>`)
+    Paths,
+    /// derive on a tuple struct
+    Tup,
+    /// derive on a unit struct
+    UnitS,
+    /// enum whose named variant has `[u8; 64]`, bytes, string, float, fixed-width and fixed-size
+    /// bytes fields; the tuple / unit structs as variant payloads
+    Wide,
+    /// the four above as singular / optional / repeated message fields
+    Holder2,
 }
 
 #[allow(dead_code)]
-pub const ALL_IDS: [MsgId; 15] = [
+pub const ALL_IDS: [MsgId; 20] = [
     MsgId::Empty,
     MsgId::Leaf,
     MsgId::Varints,
@@ -49,6 +60,11 @@ pub const ALL_IDS: [MsgId; 15] = [
     MsgId::ResTop,
     MsgId::WithRes,
     MsgId::Borrowed,
+    MsgId::Paths,
+    MsgId::Tup,
+    MsgId::UnitS,
+    MsgId::Wide,
+    MsgId::Holder2,
 ];
 
 #[derive(Clone, Copy, Debug, PartialEq, Eq)]
@@ -71,6 +87,9 @@ pub enum Ty {
     Bytes32,
     Bytes64,
     Str,
+    /// a `string` field whose native type is `PathBuf`: the value is the path's raw OS bytes
+    /// (`Leaf::Bytes`), written as they are; only UTF-8 paths are values of a protobuf string
+    StrPath,
     Msg(MsgId),
 }
 
@@ -80,7 +99,7 @@ impl Ty {
         match self {
             Ty::Int32 | Ty::Int64 | Ty::Uint32 | Ty::Uint64 | Ty::Sint32 | Ty::Sint64 | Ty::Bool => 0,
             Ty::Fixed64 | Ty::Sfixed64 | Ty::Double => 1,
-            Ty::Bytes | Ty::Bytes16 | Ty::Bytes32 | Ty::Bytes64 | Ty::Str | Ty::Msg(_) => 2,
+            Ty::Bytes | Ty::Bytes16 | Ty::Bytes32 | Ty::Bytes64 | Ty::Str | Ty::StrPath | Ty::Msg(_) => 2,
             Ty::Fixed32 | Ty::Sfixed32 | Ty::Float => 5,
         }
     }
@@ -216,6 +235,10 @@ pub enum BKind {
     NamedBody,
     /// After the single field of an enum / Result that is itself the payload of a message field.
     OneofTail,
+    /// Before the single (variant) field of an enum / Result, nested or top level.
+    OneofHead,
+    /// After the single field of a TOP-LEVEL enum / Result.
+    OneofTailTop,
 }
 
 #[derive(Clone, Debug)]
@@ -225,6 +248,8 @@ pub struct BInfo {
     pub depth: usize,
     /// (field number, wire type) pairs the enclosing body knows.
     pub known: Vec<(u32, u8)>,
+    /// OneofHead only: the enum / Result is the payload of a message field (else: top level).
+    pub nested: bool,
 }
 
 #[derive(Clone, Copy, Debug, PartialEq, Eq)]
@@ -248,6 +273,9 @@ pub struct Plan {
     pub splices: BTreeMap<usize, Vec<u8>>,
     /// varint index -> how to mis-encode it
     pub tweaks: BTreeMap<usize, Tweak>,
+    /// index into `Enc::oneof_boundaries` -> raw bytes inserted there.  (A second list, so that the
+    /// indices of `splices` - and with them every saved replay - keep their meaning.)
+    pub oneof_splices: BTreeMap<usize, Vec<u8>>,
 }
 
 #[derive(Clone, Debug, Default)]
@@ -273,6 +301,8 @@ pub struct Stats {
     pub result_ok: usize,
     pub result_err: usize,
     pub has_float32: bool,
+    pub path_strings: usize,
+    pub path_strings_not_utf8: usize,
 }
 
 fn is_boundary_u64(x: u64) -> bool {
@@ -290,6 +320,9 @@ fn is_boundary_i64(x: i64) -> bool {
 pub struct Enc<'p> {
     plan: Option<&'p Plan>,
     pub boundaries: Vec<BInfo>,
+    /// boundaries around the variant field of enums / Results that `boundaries` does not have:
+    /// before it (nested and top level) and after it at top level
+    pub oneof_boundaries: Vec<BInfo>,
     pub varints: Vec<Role>,
     pub stats: Stats,
     schema: fn(MsgId) -> Schema,
@@ -300,6 +333,7 @@ impl<'p> Enc<'p> {
         Self {
             plan,
             boundaries: vec![],
+            oneof_boundaries: vec![],
             varints: vec![],
             stats: Stats::default(),
             schema,
@@ -322,9 +356,32 @@ impl<'p> Enc<'p> {
             kind,
             depth,
             known: known.to_vec(),
+            nested: depth > 0,
         });
         if let Some(bytes) = self.plan.and_then(|p| p.splices.get(&idx)) {
             out.extend_from_slice(bytes);
+        }
+    }
+
+    fn oneof_boundary(&mut self, kind: BKind, depth: usize, nested: bool, known: &[(u32, u8)], out: &mut Vec<u8>) {
+        let idx = self.oneof_boundaries.len();
+        self.oneof_boundaries.push(BInfo {
+            kind,
+            depth,
+            known: known.to_vec(),
+            nested,
+        });
+        if let Some(bytes) = self.plan.and_then(|p| p.oneof_splices.get(&idx)) {
+            out.extend_from_slice(bytes);
+        }
+    }
+
+    /// After the variant field: the boundary older replays know when nested, the new one at top level.
+    fn oneof_tail(&mut self, depth: usize, nested: bool, known: &[(u32, u8)], out: &mut Vec<u8>) {
+        if nested {
+            self.boundary(BKind::OneofTail, depth, &[], out);
+        } else {
+            self.oneof_boundary(BKind::OneofTailTop, depth, false, known, out);
         }
     }
 
@@ -439,6 +496,13 @@ impl<'p> Enc<'p> {
             }
             (Ty::Bytes | Ty::Bytes16 | Ty::Bytes32 | Ty::Bytes64, Leaf::Bytes(b)) => self.len_prefixed(b, out),
             (Ty::Str, Leaf::Str(s)) => self.len_prefixed(s.as_bytes(), out),
+            (Ty::StrPath, Leaf::Bytes(b)) => {
+                self.stats.path_strings += 1;
+                if std::str::from_utf8(b).is_err() {
+                    self.stats.path_strings_not_utf8 += 1;
+                }
+                self.len_prefixed(b, out)
+            }
             (Ty::Msg(sub), Leaf::Msg(d)) => {
                 self.stats.nested += 1;
                 let mut body = vec![];
@@ -493,6 +557,15 @@ impl<'p> Enc<'p> {
         match ((self.schema)(id), d) {
             (Schema::Struct(specs), DMsg::Struct(vals)) => self.fields(&specs, vals, BKind::StructBody, depth, out),
             (Schema::Enum(vars), DMsg::Enum(i, body)) => {
+                // what the enum knows: one (number, wire type) per variant
+                let known: Vec<(u32, u8)> = vars
+                    .iter()
+                    .map(|v| match v {
+                        VariantSpec::Unit(n) | VariantSpec::Named(n, _) => (*n, 2),
+                        VariantSpec::Unnamed(n, ty) => (*n, ty.wire_type()),
+                    })
+                    .collect();
+                self.oneof_boundary(BKind::OneofHead, depth, nested, &known, out);
                 match (&vars[*i], body) {
                     (VariantSpec::Unit(n), EnumBody::Unit) => {
                         self.stats.enum_unit += 1;
@@ -514,33 +587,29 @@ impl<'p> Enc<'p> {
                     }
                     (v, b) => panic!("harness: enum body {b:?} does not fit variant {v:?}"),
                 }
-                if nested {
-                    self.boundary(BKind::OneofTail, depth, &[], out);
-                }
+                self.oneof_tail(depth, nested, &known, out);
             }
             (Schema::Result(ok), DMsg::ResOk(inner)) => {
                 self.stats.result_ok += 1;
                 self.stats.fields += 1;
+                self.oneof_boundary(BKind::OneofHead, depth, nested, &[(1, 2), (2, 2)], out);
                 self.tag(1, 2, out);
                 let mut body = vec![];
                 self.msg(ok, inner, false, depth + 1, &mut body);
                 self.len_prefixed(&body, out);
-                if nested {
-                    self.boundary(BKind::OneofTail, depth, &[], out);
-                }
+                self.oneof_tail(depth, nested, &[(1, 2), (2, 2)], out);
             }
             (Schema::Result(_), DMsg::ResErr(text)) => {
                 self.stats.result_err += 1;
                 self.stats.fields += 1;
+                self.oneof_boundary(BKind::OneofHead, depth, nested, &[(1, 2), (2, 2)], out);
                 self.tag(2, 2, out);
                 // an SError packs as a length-prefixed string; as a message field that string is
                 // the message body
                 let mut body = vec![];
                 self.len_prefixed(text.as_bytes(), &mut body);
                 self.len_prefixed(&body, out);
-                if nested {
-                    self.boundary(BKind::OneofTail, depth, &[], out);
-                }
+                self.oneof_tail(depth, nested, &[(1, 2), (2, 2)], out);
             }
             (s, d) => panic!("harness: value {d:?} does not fit schema {s:?}"),
         }
@@ -551,6 +620,7 @@ impl<'p> Enc<'p> {
 pub struct RefEncoding {
     pub bytes: Vec<u8>,
     pub boundaries: Vec<BInfo>,
+    pub oneof_boundaries: Vec<BInfo>,
     pub varints: Vec<Role>,
     pub stats: Stats,
 }
@@ -562,6 +632,7 @@ pub fn ref_encode(schema: fn(MsgId) -> Schema, id: MsgId, d: &DMsg, plan: Option
     RefEncoding {
         bytes,
         boundaries: enc.boundaries,
+        oneof_boundaries: enc.oneof_boundaries,
         varints: enc.varints,
         stats: enc.stats,
     }
